@@ -1,14 +1,16 @@
 #!/bin/sh
-# fixed: property=C21 R-EQSYM equals(const enum_type_decl &, ...): predicate is_enumerator_value_redundant(e, r)
-# enum E { a = 0 }  vs  enum E { a = 0, c = 5, d = 5 }: before the repair equals(l, r) was true and equals(r, l) false
-# (the second loop looked for the redundant value in `r` again): `abidiff v1 v2` reported nothing - not even with
-# --harmless - while `abidiff v2 v1` reported two enumerator deletions.   exit 0 = both directions see the change.
+# KNOWN-FINDING C21 R-EQSYM equals(const enum_type_decl &, ...): predicate is_enumerator_value_redundant(e, r)
+# enum E { a = 0 }  vs  enum E { a = 0, c = 5, d = 5 }: equals(l, r) is true and equals(r, l) is false - the loop over
+# l's enumerators asks whether the value is redundant in `r` (the other enum), the loop over r's enumerators asks it of
+# `r` again (its own enum).  `abidiff v1 v2` reports nothing, not even with --harmless; `abidiff v2 v1` reports two
+# enumerator deletions.   exit 0 = the asymmetry is still there.
 D=$(mktemp -d); trap 'rm -rf $D' EXIT
 cd $D || exit 2
 printf 'enum E { a = 0 };\nint f(enum E e) { return e; }\n' > e1.c
 printf 'enum E { a = 0, c = 5, d = 5 };\nint f(enum E e) { return e; }\n' > e2.c
 gcc -g -shared -fPIC -o l1.so e1.c && gcc -g -shared -fPIC -o l2.so e2.c || exit 2
-i=$(/repo/tools/abidiff --harmless l1.so l2.so | grep -c "enumerator insertion")
-d=$(/repo/tools/abidiff --harmless l2.so l1.so | grep -c "enumerator deletion")
-echo "v1 -> v2: $i insertion section(s) ; v2 -> v1: $d deletion section(s)"
-[ "$i" -ge 1 ] && [ "$d" -ge 1 ]
+/repo/tools/abidiff --harmless l1.so l2.so > ab.txt; a=$?
+/repo/tools/abidiff --harmless l2.so l1.so > ba.txt; b=$?
+echo "v1 -> v2: exit $a, $(grep -c 'enumerator' ab.txt) enumerator line(s) ; v2 -> v1: exit $b, $(grep -c 'enumerator' ba.txt) enumerator line(s)"
+[ $a -eq 0 ] && [ $b -ne 0 ] && { echo "one direction sees the change, the other does not"; exit 0; }
+exit 1
